@@ -14,8 +14,8 @@ CLAIMED = {
 CLAIMED["C15"] = dict(
    technique="property-based testing: generated regular-expression ASTs built through the public NFA combinators, compiled DFA compared with a Brzozowski-derivative reference matcher on all strings up to a length bound (differential, bounded-exhaustive per expression)",
    level="exploration",
-   text="For each generated expression (incl. ?/+ around operands that begin or end with a loop, tagged flat and nested choices) acceptance, dead-transition soundness, tag sets, terminal flag and determinism are compared with the derivative matcher on every string over {a,b,c} up to length 5 (6 in thorough) and on random longer strings. Sampled over expressions, exhaustive over short inputs per expression.",
-   note="Trusted base: the 150-line derivative matcher in refre.rs. Tags are checked for tags on alternatives of a top-level (possibly nested) choice only.",
+   text="For each generated expression (incl. ?/+ around operands that begin or end with a loop, tagged flat and nested choices, also placed inside prefix (choice)[+] suffix) acceptance, dead-transition soundness, tag sets, terminal flag and determinism are compared with the derivative matcher on every string over {a,b,c} up to length 5 (6 in thorough) and on random longer strings. Sampled over expressions, exhaustive over short inputs per expression.",
+   note="Trusted base: the 150-line derivative matcher in refre.rs. Tags are checked for one tagged (possibly nested) choice, top-level or inside a sequence/loop: tags after s = alternatives that end exactly at the end of s, for every state.",
    design="§3 C15")
 CLAIMED["C07"] = dict(
    technique="property-based testing: model-based (matrix-of-offsets model) over generated view/transpose programs, carriers and access operations; address-level check of the mutable iterator",
@@ -31,28 +31,28 @@ CLAIMED["C04"] = dict(
    note="The key/button naming table and the 16 named colours are pinned from the library (the property defers to the library's table). SGR semantics from ECMA-48/xterm/kitty in refsgr.rs. 12/16-bit colour reduction accepted between truncation and rounding.",
    design="§3 C04")
 CLAIMED["C18"] = dict(
-   technique="property-based testing: model-based (dictionary model) over generated registration histories with exhaustive lookups after every step; stateful matcher implications; parser totality + print/parse round trip over generated and swept strings",
+   technique="property-based testing: model-based (dictionary model) over generated registration histories with exhaustive lookups after every step; stateful matcher implications; parser totality + print/parse round trip over generated and swept strings; thorough: + coverage-guided fuzzing (libFuzzer) of parser inputs and registration histories with the same oracle in-target",
    level="exploration",
-   text="Registration/override histories over a colliding key pool are replayed against a BTreeMap model with all 1554 chords of length <=4 looked up after every step; a bounded-exhaustive sweep covers all histories of 4 registrations over 2 keys; every Unicode scalar is pushed through the three parsers in four string positions; grammar-shaped and mutated strings are generated.",
+   text="Registration/override histories over a colliding key pool are replayed against a BTreeMap model with all 1554 chords of length <=4 looked up after every step; a bounded-exhaustive sweep covers all histories of 4 registrations over 2 keys; every Unicode scalar is pushed through the three parsers in four string positions; grammar-shaped and mutated strings are generated. Thorough tier additionally runs a coverage-guided libFuzzer campaign (cargo-fuzz, 8 processes, fixed number of executions, seeded with generated cases) whose in-target oracle is the same check function.",
    note="Matcher is checked only for the two implications the property states. Which strings a parser accepts is not part of the property.",
    design="§3 C18")
 CLAIMED["C20"] = dict(
    technique="property-based testing: brute-force nearest-entry oracle over the xterm 256-colour table in the library's linear-light metric, grey-level nearest/monotone oracle, true-colour identity; thorough tier enumerates all 2^24 colours",
    level="exploration",
-   text="Quick: 16^3 lattice, all palette entries +-1, all greys, and 3.2M generated colours in five colour slots and three depths. Thorough: ALL 2^24 colours x 5 slots x 3 depths (exhaustive).",
-   note="Distance metric computed through the public rasterize conversion in f64; tolerance tau=2e-5 (measured worst excess 2.6e-7 from the library's 6-digit tables); grey midpoint band +-0.01; luma as rasterize defines it.",
+   text="Quick: 16^3 lattice, all palette entries +-1, all greys, and 3.2M generated colours in five colour slots and three depths, 15% of them on an encoder that was used before for a translucent colour. Thorough: ALL 2^24 colours x 5 slots x 3 depths (exhaustive).",
+   note="Distance metric computed through the public rasterize conversion in f64; tolerance tau=2e-5 (measured worst excess 2.6e-7 from the library's 6-digit tables); either neighbouring grey level accepted only between the midpoint of exact thirds and the midpoint of the library's 0.33/0.66 levels (+-0.001); luma as rasterize defines it.",
    design="§3 C20")
 
 CLAIMED["C02"] = dict(
-   technique="property-based testing / generational fuzzing in a worker process: hostile grammar-aware byte strings + mutated protocol output under generated read partitions; oracles = no crash/abort/hang, exhaustion => None, scalar validity, raw-bytes-equal-span, big-integer recomputation of every numeric field",
+   technique="property-based testing / generational fuzzing in a worker process: hostile grammar-aware byte strings + mutated protocol output under generated read partitions; oracles = no crash/abort/hang, exhaustion => None, scalar validity, raw-bytes-equal-span, big-integer recomputation of every numeric field; thorough: + coverage-guided fuzzing (libFuzzer) with the same oracle in-target",
    level="exploration",
-   text="~1M generated byte strings per quick run (raw, hostile skeletons of every sequence family with extreme/empty parameters, malformed UTF-8, mutated well-formed output) cut into reads and fed to the event, command and UTF-8 decoders inside a worker process (aborts are attributed to the case). Numeric fields are recomputed from the input span in 128-bit arithmetic and must equal or be clamped.",
+   text="~1M generated byte strings per quick run (raw, hostile skeletons of every sequence family with extreme/empty parameters, malformed UTF-8, mutated well-formed output) cut into reads and fed to the event, command and UTF-8 decoders inside a worker process (aborts are attributed to the case). Numeric fields are recomputed from the input span in 128-bit arithmetic and must equal or be clamped. Thorough tier additionally runs a coverage-guided libFuzzer campaign (cargo-fuzz, 8 processes, fixed number of executions, seeded with generated cases) whose in-target oracle is the same check function.",
    note="Clamp conventions are listed in the evidence assumptions. Spans come from the verif-hooks wrapper, which is cross-checked against the public API on every case.",
    design="§3 C02")
 CLAIMED["C03"] = dict(
-   technique="property-based testing: metamorphic (token list invariant under byte-at-a-time, generated partitions and every single cut for inputs <=48 bytes) + validity predicate for leftmost-longest derived from the production DFA trace / a derivative reference matcher over generated pattern sets (hook)",
+   technique="property-based testing: metamorphic (token list invariant under byte-at-a-time, generated partitions and every single cut for inputs <=48 bytes) + validity predicate for leftmost-longest derived from the production DFA trace / a derivative reference matcher over generated pattern sets (hook); differential of the terminal object's tty read loop on a pseudo-terminal against the single-buffer decode; thorough: + coverage-guided fuzzing (libFuzzer) with the same oracle in-target",
    level="exploration",
-   text="Production event and command decoders: spans and items identical under all tested partitions (exhaustive over two-read schedules for short inputs), single-buffer tokenisation validated against the automaton's own acceptance trace. Tokeniser core: generated pattern sets built through the public NFA API run through the private tokeniser and validated against the Brzozowski matcher.",
+   text="Production event and command decoders: spans and items identical under all tested partitions (exhaustive over two-read schedules for short inputs), single-buffer tokenisation validated against the automaton's own acceptance trace. Tokeniser core: generated pattern sets built through the public NFA API run through the private tokeniser and validated against the Brzozowski matcher. Read loop: ~3.6k sessions per quick run type generated bytes into a pty in generated chunks (lock-step or free running, padded to straddle the 1024-byte read buffer); Terminal::poll must deliver exactly the events of a fresh decoder over one buffer. Thorough tier additionally runs a coverage-guided libFuzzer campaign (cargo-fuzz, 8 processes, fixed number of executions, seeded with generated cases) whose in-target oracle is the same check function.",
    note="Grouping of unrecognised bytes is not prescribed (1..=longest viable prefix accepted). For production decoders the pattern set is the production automaton itself.",
    design="§3 C03")
 CLAIMED["C11"] = dict(
@@ -68,29 +68,29 @@ CLAIMED["C12"] = dict(
    note="Partly translucent pixels are accepted within the gamma/linear compositing interval +-1; >256 colours or subsampled images are checked structurally only.",
    design="§3 C12")
 CLAIMED["C14"] = dict(
-   technique="property-based testing: differential against an independent table-free RFC 4648 codec under generated write partitions, read-size schedules and destination buffer sizes; rejection cases; bounded-exhaustive sweep of short strings and all lengths 0..400",
+   technique="property-based testing: differential against an independent table-free RFC 4648 codec under generated write partitions, read-size schedules and destination buffer sizes; rejection cases; bounded-exhaustive sweep of short strings and all lengths 0..400; thorough: + coverage-guided fuzzing (libFuzzer) of (kind, schedule, buffers, data) with the same oracle in-target",
    level="exploration",
-   text="Encode under arbitrary write partitions must equal the reference text; decode through readers returning 1..64 bytes per call into buffers of 1..80 bytes must return the original bytes then Ok(0); text whose length is not a multiple of 4 must produce an error; arbitrary bytes never panic.",
+   text="Encode under arbitrary write partitions must equal the reference text; decode through readers returning 1..64 bytes per call into buffers of 1..80 bytes must return the original bytes then Ok(0); text whose length is not a multiple of 4 must produce an error; arbitrary bytes never panic. Thorough tier additionally runs a coverage-guided libFuzzer campaign (cargo-fuzz, 8 processes, fixed number of executions, seeded with generated cases) whose in-target oracle is the same check function.",
    note="Reference codec checked against the RFC 4648 test vectors on every run.",
    design="§3 C14")
 
 CLAIMED["C05"] = dict(
    technique="property-based testing: generated command streams -> encoder -> independent ECMA-48/xterm parser and interpreter (differential against the commanded operations), SGR judged by a reference SGR state machine from arbitrary prior states",
    level="exploration",
-   text="Streams of 1-9 commands (every variant, boundary-biased numerics incl. i32::MIN/MAX and 0, all faces and face modifications) under 3 colour depths x kitty keyboard on/off; output must parse into complete self-contained sequences whose interpreted operations equal the commanded ones, also when parsed inside the stream.",
+   text="Streams of 1-9 commands (every variant, boundary-biased numerics incl. i32::MIN/MAX and 0, all faces and face modifications) under 3 colour depths x kitty keyboard on/off; output must parse into complete self-contained sequences whose interpreted operations equal the commanded ones, also when parsed inside the stream, and also when the same encoder was first asked to encode into a writer that refuses part-way (one case in five).",
    note="Interpreter conventions (0/missing = 1 for counts; SGR tables) are the trusted base in refvt.rs/refsgr.rs. Which palette entry is selected at reduced depth is left to C20.",
    design="§3 C05")
 CLAIMED["C06"] = dict(
    technique="property-based testing: round trip (encoder -> command decoder) under generated chunkings + model-based check of the escape-sequence cell writer against a reference SGR state machine",
    level="exploration",
-   text="(a) faces, face modifications and characters encoded in true colour must be read back unchanged by the command decoder under three chunkings; (b) histories of SGR sequences in standard spellings and text written through tty_writer must yield cells whose faces follow SGR semantics from a generated initial face.",
+   text="(a) faces, face modifications and characters encoded in true colour must be read back unchanged by the command decoder under three chunkings (one case in five after a failed encode into a refusing writer); (b) histories of SGR sequences in standard spellings and text written through tty_writer must yield cells whose faces follow SGR semantics from a generated initial face.",
    note="Runs in a worker process (embeds the command decoder). Codes the record cannot express are outside the domain.",
    design="§3 C06")
 
 CLAIMED["C01"] = dict(
    technique="property-based testing: stateful/model-based over generated frame histories; renderer commands executed on a reference terminal screen; ground-truth display oracle + differential oracle against a fresh renderer on a blank screen",
    level="exploration",
-   text="~1M histories per quick run of paint/frame/no-frame/clear/dropped-frames/re-create over small terminals with narrow and wide characters, coloured blank runs, pool images (same Arc reused) and glyphs; after every delivered frame the reference screen must show exactly the surface and must equal a from-scratch repaint.",
+   text="~1M histories per quick run of paint/frame/no-frame/clear/dropped-frames/re-create (and, one case in 13, the library's own render loop on a scripted output queue with stalls, frame drops and Resize events) over small terminals with narrow and wide characters, coloured blank runs, pool images (same Arc reused) and glyphs; after every delivered frame the reference screen must show exactly the surface and must equal a from-scratch repaint.",
    note="Reference screen semantics (wide-character halves, ECH with current face, images above text) are the trusted base; z-order among overlapping images and a wide character half under an image are treated as terminal specific. Two design limits are listed as known findings.",
    design="§3 C01")
 
@@ -109,7 +109,7 @@ CLAIMED["C10"] = dict(
 CLAIMED["C13"] = dict(
    technique="property-based testing: brute-force nearest-colour oracle for quantised images and palette lookups, palette/ index bounds, exact reproduction when colours fit, octree pruning bounds; exhaustive 2^24-query sweeps for fixed palettes",
    level="exploration",
-   text="Images up to 48x48 (and at the sampling threshold), pixel pools relative to the requested palette size, alpha over generated backgrounds, crops, both dither settings; palettes of 1-512 colours incl. duplicates/collinear/clustered sets with member, +-1 neighbour and uniform queries; one (quick) or eleven (thorough) palettes are swept over ALL 2^24 query colours.",
+   text="Images up to 48x48 (and at the sampling threshold), pixel pools relative to the requested palette size, alpha over generated backgrounds, crops (incl. narrow windows of wide pictures whose span in the backing buffer exceeds the sampling threshold), both dither settings; palettes of 1-512 colours incl. duplicates/collinear/clustered sets with member, +-1 neighbour and uniform queries; one (quick) or eleven (thorough) palettes are swept over ALL 2^24 query colours.",
    note="Compositing uses rasterize's blend_over (trusted). With dithering on only bounds and exact reproduction are claimed.",
    design="§3 C13")
 CLAIMED["C16"] = dict(
@@ -121,12 +121,12 @@ CLAIMED["C16"] = dict(
 CLAIMED["C17"] = dict(
    technique="property-based testing with an owned schedule: wakes from other threads, tty input and signals placed at named points of the poll loop (verif hook) in pty sessions, one terminal per worker process; generated exit paths with termios and closing-sequence inspection",
    level="exploration",
-   text="6.4k sessions per quick run: 0-4 rounds of {1-3 concurrent wakes | typed input | SIGWINCH} placed before the poll or at 7 schedule points x 3 loop iterations of polls with zero / 50 ms / no timeout, optionally with output pending and a stalled peer; exit by drop, drop with pending output, run/run_render handler error or quit, SIGTERM/INT/QUIT, or master closed first; termios must equal the snapshot, the closing sequence must be delivered.",
-   note="Interleavings are sampled at hook points; races inside select(2) are not enumerable. poll(None) is guarded by a rescue thread; a poll that cannot be ended kills the worker and is attributed to the case.",
+   text="6.4k sessions per quick run: 0-4 rounds of {1-3 concurrent wakes | typed input | SIGWINCH} placed before the poll or at 7 schedule points x 3 loop iterations of polls with zero / 50 ms / no timeout, optionally with output pending and a stalled peer; exit by drop, drop with pending output, run/run_render handler error or quit, SIGTERM/INT/QUIT (also raised inside the release), back-pressure at drop, an application that queued its own mode-off commands, or master closed first; one session in four takes the terminal size from escape sequences (SIGWINCH answered by asking the terminal); termios must equal the snapshot, the closing sequence must be delivered / the terminal must end with mouse reporting off and the cursor visible.",
+   note="Interleavings are sampled at hook points; races inside select(2) are not enumerable. poll(None) is guarded by a rescue thread; a poll that not even typed input ends is reported by the rescue thread with a signature naming the trigger.",
    design="§3 C17")
 
 CLAIMED["C19"] = dict(
-   technique="property-based testing in a memory-capped worker process: serde/text round trips of generated faces, sizes, chords and images (crops, strided views, 1/3/4-channel JSON); grammar-based and arbitrary JSON / byte documents with per-field valid/missing/repeated/wrong-type/extreme modes and nesting up to 120 levels; every accepted view tree is laid out and rendered into a sentinel canvas",
+   technique="property-based testing in a memory-capped worker process: serde/text round trips of generated faces (attribute sets built in steps), sizes, chords and images (crops, strided views, 1/3/4-channel JSON); grammar-based and arbitrary JSON / byte documents with per-field valid/missing/repeated/wrong-type/extreme modes and nesting up to 120 levels; every accepted view tree is laid out and rendered into a sentinel canvas",
    level="exploration",
    text="64k cases per quick run; deserialisation must return Ok or Err without panic, abort, stack overflow or unbounded allocation (1 GiB address-space cap), and must finish (per-case time limit, re-tried once in a fresh process); successful view trees are laid out under three constraints with both glyph settings and rendered.",
    note="One known finding is a defect of the rasterize dependency (arc path parser). 'Rendered' means View::layout + View::render, not glyph rasterisation by the terminal renderer.",
@@ -167,6 +167,8 @@ def main():
         "engines": [
             {"name": "pbt", "path": "/verif/harness", "serves_properties": sorted(CLAIMED),
              "kind_free_text": "Rust binary snt-check: proptest strategies + explicit oracles/reference models per property, 16 deterministic shards seeded from VERIF_SEED, shrinking, replay files, optional worker-subprocess isolation"},
+            {"name": "fuzz", "path": "/verif/fuzz", "serves_properties": ["C02", "C03", "C14", "C18"],
+             "kind_free_text": "cargo-fuzz crate (libFuzzer, nightly toolchain, sanitizer none, debug assertions + overflow checks): one target per property that decodes the fuzzer's bytes into a case (Property::case_from_bytes) and runs the SAME Property::check in-process; driven by the thorough tier of snt-check (8 processes, -runs=N -seed from VERIF_SEED, corpus seeded with generated cases); an artifact is re-executed through the normal executor and becomes the replay file"},
         ],
         "checks": checks,
         "not_applicable": na,
